@@ -176,13 +176,44 @@ def populateF (orc : Oracle) (locale : Str) (args : List (Str × PV)) : List (Fo
       | .panic p => .panic p
 end
 
+/-- what `resolve_foreign_key*` reads of the configuration: the default locale and the `inherits` table -/
+structure Fallbacks where
+  default : Str
+  inherits : List (Str × Str)
+deriving Inhabited
+
+/-- `cfg_file.extensions.get(cur).filter(|l| !visited.contains(l)).unwrap_or(&cfg_file.default)` -/
+def nextLocale (fb : Fallbacks) (visited : List Str) (cur : Str) : Str :=
+  match AMap.get? cur fb.inherits with
+  | some l => if visited.contains l then fb.default else l
+  | none => fb.default
+
+/-- the loop of `resolve_foreign_key_inner`: walking from `cur` through `inherits` (a locale already visited, or no
+    entry, means the default locale), the first locale whose value at `target` is neither absent nor an explicit
+    default, with that value.  The default locale has nowhere to fall back to: `MissingForeignKey` /
+    `ExplicitDefaultInDefault`.  Each turn either stops or adds a locale with an `inherits` entry to `visited`
+    (or moves to the default locale, which stops): `inherits.length + 2` turns suffice. -/
+def findDefining (w : World) (fb : Fallbacks) : Nat → List Str → Str → KeyPath → Res (Str × PV)
+  | 0, _, _, _ => .panic "fuel"
+  | fuel + 1, visited, cur, target =>
+    match w.getValueAt cur target with
+    | .err e => .err e
+    | .panic p => .panic p
+    | .ok (some .dflt) =>
+      if cur == fb.default then .err "ExplicitDefaultInDefault"
+      else findDefining w fb fuel (cur :: visited) (nextLocale fb (cur :: visited) cur) target
+    | .ok (some v) => .ok (cur, v)
+    | .ok none =>
+      if cur == fb.default then .err "MissingForeignKey"
+      else findDefining w fb fuel (cur :: visited) (nextLocale fb (cur :: visited) cur) target
+
 /-- physical identity of a key: (namespace-qualified path, locale) -/
 abbrev KeyId := Str × KeyPath
 
 mutual
 /-- `ParsedValue::resolve_foreign_key` as a pure function: every foreign-key node of `pv` (which
     lives in key `phys`; lookups are made in locale `top`) becomes `Set`. -/
-def resolvePV (orc : Oracle) (w : World) (dflt : Str) :
+def resolvePV (orc : Oracle) (w : World) (dflt : Fallbacks) :
     Nat → List KeyId → KeyId → Str → PV → Res PV
   | 0, _, _, _, _ => .panic "fuel"
   | fuel + 1, visiting, phys, top, pv =>
@@ -216,27 +247,24 @@ def resolvePV (orc : Oracle) (w : World) (dflt : Str) :
         | .ok o => .ok (.plurals r ck o fs)
         | .err e => .err e
         | .panic p => .panic p
-    | .fk (.notSet target args) => resolveNode orc w dflt fuel visiting phys top target args true
+    | .fk (.notSet target args) => resolveNode orc w dflt fuel visiting phys top target args
 
-/-- `resolve_foreign_key_inner` (the node lives in key `phys`; `top` is the lookup locale) -/
-def resolveNode (orc : Oracle) (w : World) (dflt : Str) :
-    Nat → List KeyId → KeyId → Str → KeyPath → List (Str × PV) → Bool → Res PV
-  | 0, _, _, _, _, _, _ => .panic "fuel"
-  | fuel + 1, visiting, phys, top, target, args, mayJump =>
-    match w.getValueAt top target with
+/-- `resolve_foreign_key_inner` (the node lives in key `phys`; `top` is the locale of the node: its arguments are
+    resolved and the target populated in `top`; the target's value is the one of the first locale of `top`'s
+    fallback walk which defines it) -/
+def resolveNode (orc : Oracle) (w : World) (dflt : Fallbacks) :
+    Nat → List KeyId → KeyId → Str → KeyPath → List (Str × PV) → Res PV
+  | 0, _, _, _, _, _ => .panic "fuel"
+  | fuel + 1, visiting, phys, top, target, args =>
+    match findDefining w dflt (dflt.inherits.length + 2) [] top target with
     | .err e => .err e
     | .panic p => .panic p
-    | .ok none => .err "MissingForeignKey"
-    | .ok (some .dflt) =>
-      -- explicit default: look the target up in the default locale instead
-      if top == dflt || !mayJump then .err "ExplicitDefaultInDefault"
-      else resolveNode orc w dflt fuel visiting phys dflt target args false
-    | .ok (some value) =>
-      let tid : KeyId := (top, target)
+    | .ok (src, value) =>
+      let tid : KeyId := (src, target)
       let visiting' := phys :: visiting
       -- re-entering a key whose foreign key is being resolved: `try_borrow_mut` fails
       if visiting'.contains tid then .err "RecursiveForeignKey" else
-      match resolvePV orc w dflt fuel visiting' tid top value with
+      match resolvePV orc w dflt fuel visiting' tid src value with
       | .err e => .err e
       | .panic p => .panic p
       | .ok value' =>
@@ -249,7 +277,7 @@ def resolveNode (orc : Oracle) (w : World) (dflt : Str) :
           | .err e => .err e
           | .panic p => .panic p
 
-def resolveL (orc : Oracle) (w : World) (dflt : Str) :
+def resolveL (orc : Oracle) (w : World) (dflt : Fallbacks) :
     Nat → List KeyId → KeyId → Str → List PV → Res (List PV)
   | 0, _, _, _, _ => .panic "fuel"
   | _ + 1, _, _, _, [] => .ok []
@@ -263,7 +291,7 @@ def resolveL (orc : Oracle) (w : World) (dflt : Str) :
       | .err e => .err e
       | .panic p => .panic p
 
-def resolveB (orc : Oracle) (w : World) (dflt : Str) :
+def resolveB (orc : Oracle) (w : World) (dflt : Fallbacks) :
     Nat → List KeyId → KeyId → Str → List (Range × PV) → Res (List (Range × PV))
   | 0, _, _, _, _ => .panic "fuel"
   | _ + 1, _, _, _, [] => .ok []
@@ -277,7 +305,7 @@ def resolveB (orc : Oracle) (w : World) (dflt : Str) :
       | .err e => .err e
       | .panic p => .panic p
 
-def resolveF (orc : Oracle) (w : World) (dflt : Str) :
+def resolveF (orc : Oracle) (w : World) (dflt : Fallbacks) :
     Nat → List KeyId → KeyId → Str → List (Form × PV) → Res (List (Form × PV))
   | 0, _, _, _, _ => .panic "fuel"
   | _ + 1, _, _, _, [] => .ok []
@@ -291,7 +319,7 @@ def resolveF (orc : Oracle) (w : World) (dflt : Str) :
       | .err e => .err e
       | .panic p => .panic p
 
-def resolveArgs (orc : Oracle) (w : World) (dflt : Str) :
+def resolveArgs (orc : Oracle) (w : World) (dflt : Fallbacks) :
     Nat → List KeyId → KeyId → Str → List (Str × PV) → Res (List (Str × PV))
   | 0, _, _, _, _ => .panic "fuel"
   | _ + 1, _, _, _, [] => .ok []
@@ -345,7 +373,7 @@ def mergedPath (p : KeyPath) : Option KeyPath :=
       | some b => some { p with path := p.path.dropLast ++ [b] }
 
 /-- resolve the value stored at `p` (if any) and store the result -/
-def resolveAt (orc : Oracle) (dflt : Str) (fuel : Nat) (locale : Str) (p : KeyPath) (w : World) : Res (World × Bool) :=
+def resolveAt (orc : Oracle) (dflt : Fallbacks) (fuel : Nat) (locale : Str) (p : KeyPath) (w : World) : Res (World × Bool) :=
   match w.getValueAt locale p with
   | .err e => .err e
   | .panic s => .panic s
@@ -359,7 +387,7 @@ def resolveAt (orc : Oracle) (dflt : Str) (fuel : Nat) (locale : Str) (p : KeyPa
 /-- `resolve_foreign_keys`: registered `(locale, path)` pairs in `BTreeSet` order; for each, the value at the
     registered path *and* the plural the key may have been merged into are resolved (both can exist: `x_one` → `x`
     while `x_one_one`/`x_one_other` → `x_one`); neither existing is the panic site `resolve_foreign_keys_1` -/
-def resolveAll (orc : Oracle) (dflt : Str) (fuel : Nat) : List (Str × KeyPath) → World → Res World
+def resolveAll (orc : Oracle) (dflt : Fallbacks) (fuel : Nat) : List (Str × KeyPath) → World → Res World
   | [], w => .ok w
   | (locale, p) :: rest, w =>
     match resolveAt orc dflt fuel locale p w with
